@@ -232,12 +232,18 @@ func indexAddr(fr *frame, instr *ssa.IndexAddr) value {
 	idx := fr.get(instr.Index)
 	switch x := x.(type) {
 	case []value:
+		if si, ok := idx.(sym); ok && isScalarTable(x) {
+			return symElemPtr{base: x, idx: si}
+		}
 		return &x[fr.i.x.needIndex(idx, len(x))]
 	case *value: // *array
 		if x == nil {
 			panic(nilDeref())
 		}
 		a := (*x).(array)
+		if si, ok := idx.(sym); ok && isScalarTable(a) {
+			return symElemPtr{base: a, idx: si}
+		}
 		return &a[fr.i.x.needIndex(idx, len(a))]
 	}
 	panic(fmt.Sprintf("unexpected x type in IndexAddr: %T", x))
@@ -248,8 +254,14 @@ func index(fr *frame, instr *ssa.Index) value {
 	idx := fr.get(instr.Index)
 	switch x := x.(type) {
 	case array:
+		if si, ok := idx.(sym); ok && isScalarTable(x) {
+			return fr.i.x.tableLookup(x, si)
+		}
 		return x[fr.i.x.needIndex(idx, len(x))]
 	case string:
+		if si, ok := idx.(sym); ok && len(x) >= 8 {
+			return fr.i.x.tableLookup(strBytes(x), si)
+		}
 		return x[fr.i.x.needIndex(idx, len(x))]
 	case symStr:
 		return x.b[fr.i.x.needIndex(idx, len(x.b))]
@@ -796,4 +808,86 @@ func (x *pathCtx) runeToString(v sym) value {
 		return mkStr([]value{b8(tt.BVBin("bvor", c(0xf0), shr(18))), cont(shr(12)), cont(shr(6)), cont(r)})
 	}
 	return "\uFFFD"
+}
+
+// ---- constant tables indexed by a symbolic value ----
+
+// symElemPtr is the address of table[idx] for a symbolic idx; only loads are
+// supported (a store falls back to case-splitting the index).
+type symElemPtr struct {
+	base []value
+	idx  sym
+}
+
+// isScalarTable reports whether t is a table (>= 8 entries) of concrete
+// scalars of one kind: a symbolic index into it becomes an if-then-else term
+// over runs of equal entries instead of a case split.
+func isScalarTable(t []value) bool {
+	if len(t) < 8 {
+		return false
+	}
+	k0, ok := kindOfValue(t[0])
+	if !ok {
+		return false
+	}
+	if _, s := t[0].(sym); s {
+		return false
+	}
+	for _, e := range t[1:] {
+		if _, s := e.(sym); s {
+			return false
+		}
+		k, ok := kindOfValue(e)
+		if !ok || k != k0 {
+			return false
+		}
+	}
+	return true
+}
+
+// tableLookup returns table[idx]; out-of-range indices panic as in Go.
+func (x *pathCtx) tableLookup(t []value, idx sym) value {
+	tt := x.tt
+	w, signed := kindBits(idx.k)
+	n := len(t)
+	var inRange *Term
+	if signed {
+		inRange = tt.And(tt.BVCmp("bvsle", tt.BV(w, 0), idx.t), tt.BVCmp("bvslt", idx.t, tt.BV(w, uint64(n))))
+	} else {
+		inRange = tt.BVCmp("bvult", idx.t, tt.BV(w, uint64(n)))
+	}
+	if w < 64 && uint64(n) > mask(w) {
+		inRange = tt.Bool(true) // every value of the index type is in range
+		if signed {
+			inRange = tt.BVCmp("bvsle", tt.BV(w, 0), idx.t)
+		}
+	}
+	if !x.decideBool(inRange, "table index") {
+		panic(runtimeError(fmt.Sprintf("index out of range with length %d", n)))
+	}
+	k, _ := kindOfValue(t[0])
+	// runs of equal entries, folded from the end
+	acc := x.lift(t[n-1])
+	for i := n - 2; i >= 0; {
+		j := i
+		for j > 0 && t[j-1] == t[i] {
+			j--
+		}
+		// entries j..i share a value
+		v := x.lift(t[i])
+		if v != acc {
+			var c *Term
+			if j == i {
+				c = tt.Eq(idx.t, tt.BV(w, uint64(i)))
+			} else {
+				c = tt.BVCmp("bvule", idx.t, tt.BV(w, uint64(i)))
+				if j > 0 {
+					c = tt.And(c, tt.BVCmp("bvule", tt.BV(w, uint64(j)), idx.t))
+				}
+			}
+			acc = tt.Ite(c, v, acc)
+		}
+		i = j - 1
+	}
+	return x.lower(acc, k)
 }
